@@ -248,6 +248,74 @@ theorem client_request_rules (scheme : Scheme) (cfgProto : Option SessProto) (mp
     simp [clientSetupRequest, clientPick, isSecure, Sec.isSecureIsSAVP, Sec.clientNoPlainUDPOverTLS] at h <;>
     (obtain ⟨rfl, rfl, rfl⟩ := h; simp)
 
+/-- **client_session_profile_constant.**  EVERY SETUP the client issues for a media within a session —
+the first one and every re-SETUP after a protocol switch (no UDP packets, 461, answer with a TCP
+transport), in any number and order — requests the profile of the first one, and all re-SETUPs use
+TCP.  Nothing is refused after the first request. -/
+theorem client_session_profile_constant (scheme : Scheme) (cur : SessProto × Profile) (evs : List SwitchEv) :
+    ∀ r ∈ clientSetupsFrom scheme cur evs, r = .request .tcp cur.2 (isSecure cur.2) := by
+  induction evs generalizing cur with
+  | nil => simp [clientSetupsFrom]
+  | cons ev rest ih =>
+    intro r hr
+    simp only [clientSetupsFrom, List.mem_cons] at hr
+    have hsw : clientSwitch cur ev = (.tcp, cur.2) := by
+      simp [clientSwitch, Sec.switchCarriesProfile, Sec.switchPrevProfileFromTransport]
+    rcases hr with rfl | hr
+    · simp [hsw, clientResetup, Sec.setupReusesTransport]
+    · rw [hsw] at hr
+      exact ih (.tcp, cur.2) r hr
+
+/-- **client_session_stays_secure.**  In an rtsps session on a secure media every SETUP of the session,
+including the re-SETUPs after any sequence of protocol switches, asks for RTP/SAVP and carries the
+client's key: the automatic fallback to TCP can not downgrade the session to RTP/AVP. -/
+theorem client_session_stays_secure (cfgProto : Option SessProto) (h264 tunnel : Bool) (evs : List SwitchEv) :
+    ∀ r ∈ clientSessionSetups .rtsps cfgProto .savp h264 tunnel evs,
+      r = .refused ∨ ∃ p, r = .request p .savp true := by
+  intro r hr
+  unfold clientSessionSetups at hr
+  cases h1 : clientSetupRequest .rtsps cfgProto .savp h264 tunnel with
+  | refused =>
+    simp only [h1, List.mem_singleton] at hr
+    exact Or.inl hr
+  | request p pr km =>
+    simp only [h1, List.mem_cons] at hr
+    obtain ⟨_, h2, h3⟩ := client_request_rules .rtsps cfgProto .savp h264 tunnel p pr km h1
+    have hpr : pr = .savp := by
+      cases h264 <;> cases tunnel <;> rcases cfgProto with _ | (_ | _ | _) <;>
+        simp [clientSetupRequest, clientPick, isSecure, Sec.isSecureIsSAVP, Sec.clientNoPlainUDPOverTLS] at h1 <;>
+        (obtain ⟨_, rfl, _⟩ := h1; rfl)
+    subst hpr
+    rcases hr with rfl | hr
+    · exact Or.inr ⟨p, by rw [h3.2 rfl]⟩
+    · have := client_session_profile_constant .rtsps (p, .savp) evs r hr
+      exact Or.inr ⟨.tcp, by simpa [isSecure, Sec.isSecureIsSAVP] using this⟩
+
+/-- … and on plain rtsp no SETUP of the session ever asks for the secure profile. -/
+theorem client_session_never_secure_on_plain (cfgProto : Option SessProto) (mp : Profile) (h264 tunnel : Bool) (evs : List SwitchEv) :
+    ∀ r ∈ clientSessionSetups .rtsp cfgProto mp h264 tunnel evs, r = .refused ∨ ∃ p, r = .request p .avp false := by
+  intro r hr
+  unfold clientSessionSetups at hr
+  cases h1 : clientSetupRequest .rtsp cfgProto mp h264 tunnel with
+  | refused =>
+    simp only [h1, List.mem_singleton] at hr
+    exact Or.inl hr
+  | request p pr km =>
+    simp only [h1, List.mem_cons] at hr
+    obtain ⟨h2, _, h3⟩ := client_request_rules .rtsp cfgProto mp h264 tunnel p pr km h1
+    have hpr := h2 rfl
+    subst hpr
+    have hkm : km = false := by
+      cases km with
+      | false => rfl
+      | true => simp at h3
+    subst hkm
+    rcases hr with rfl | hr
+    · exact Or.inr ⟨p, rfl⟩
+    · have := client_session_profile_constant .rtsp (p, .avp) evs r hr
+      have e : isSecure Profile.avp = false := by decide
+      exact Or.inr ⟨.tcp, by rw [this, e]⟩
+
 /-- the client rejects a SETUP answer whose profile differs from the requested one (a server or a
 man in the middle cannot downgrade RTP/SAVP to RTP/AVP) -/
 theorem client_rejects_profile_change (a b : Profile) : clientAcceptsProfile a b = true ↔ a = b := by
